@@ -298,15 +298,29 @@ def populate(rng, h, db, E, H):
 class Checker:
     def __init__(self, ctx, h, db, E, H, w):
         self.ctx = ctx; self.h = h; self.db = db; self.E = E; self.H = H; self.w = w
-        self.trace = []; self.broken = False
+        self.trace = []; self.broken = False; self.seed_obs = []
     def name(self, i): return 'E%d' % i
     def fail(self, kind, what, detail, observed, expected, key=None):
         self.ctx.count('oracle-fail:' + (key or kind))
         inp = {'bases': self.h['bases'], 'mode': self.h['mode'], 'discriminators': [repr(e._discriminator_) for e in self.E], 'subk': self.h.get('subk'),
                'objects': {'%d:%d' % k: v for k, v in self.w.cls.items()}, 'holders': self.w.holders, 'session_steps': list(self.trace), 'step': kind, 'detail': detail}
         self.ctx.violation(what, inp, observed=observed, expected=expected, key=key)
+    SITE = {'ref': 'attrGet', 'holder-first-ref': 'attrGet', 'sub-ref': 'attrGet', 'mref': 'attrGet', 'holder-first-mref': 'attrGet',
+            'm2m-items': 'setCopy', 'm2m-items-then-touch': 'setCopy', 'query-tuple-ref': 'queryTuple',
+            'seed-then-index': 'findInCache', 'index': 'findInCache', 'get-pk': 'findInCache'}
+
+    def observe_seed(self, kind, obj):
+        """tie of Model/SeedLoad: is the object the site hands out still a seed (known by primary key only)?  compared with `stillSeed` later"""
+        site = self.SITE.get(kind)
+        if site is None: return
+        cache = self.db._get_cache()
+        still = obj in cache.seeds[obj._pk_attrs_]
+        self.ctx.count('handout:%s:%s' % (site, 'seed' if still else 'loaded'))
+        self.seed_obs.append((site, bool(type(obj)._subclasses_), still, [kind, type(obj).__name__, obj.id]))
+
     def check_type(self, kind, obj, root, detail, key=None):
         """type(obj) must be the class the object was created as"""
+        self.observe_seed(kind, obj)
         exp = self.w.cls[(root, obj.id)]
         got = type(obj).__name__
         self.ctx.case(['type', self.h['bases'], self.h['mode'], kind, detail, list(self.trace[-3:])], kind='oracle:type:' + kind)
@@ -315,6 +329,7 @@ class Checker:
             return False
         return True
     def check_set(self, kind, objs, root, expected_pks, detail, key=None):
+        for o in objs: self.observe_seed(kind, o)
         got = sorted((o.id, type(o).__name__) for o in objs)
         exp = sorted((pk, self.name(self.w.cls[(root, pk)])) for pk in expected_pks)
         self.ctx.case(['set', self.h['bases'], self.h['mode'], kind, detail, list(self.trace[-3:])], kind='oracle:set:' + kind)
@@ -382,6 +397,46 @@ class Checker:
         if got != exp:
             self.fail('nested-subquery', 'a sub-query over an entity nested in another query (Entity.select/exists(lambda)) does not see exactly the objects of that entity and its subclasses',
                       det, got, exp)
+            return False
+        return True
+
+    def navigated_query(self, s, form, as_string):
+        """isinstance(x, S) / aggregates where x is reached through a relationship of the holder; ground truth from the stored classes"""
+        h, E, H, w = self.h, self.E, self.H, self.w
+        src, shape = NAVIGATED_FORMS[form]
+        env = {'H': H, 'S': E[s], 'select': select, 'exists': exists, 'count': count, 'sum': sum, 'max': max}
+        inst = lambda pk: is_sub(h, w.cls[(0, pk)], s)
+        hold = w.holders
+        if shape == 'objects-m2m': exp = sorted({pk for v in hold.values() for pk in v['refs0'] if inst(pk)})
+        elif shape == 'objects-o2m': exp = sorted({pk for v in hold.values() for pk in v['many'] if inst(pk)})
+        elif shape == 'holders-mref': exp = sorted(hid for hid, v in hold.items() if v['mref'] is not None and inst(v['mref']))
+        elif shape == 'holders-ref0': exp = sorted(hid for hid, v in hold.items() if v['ref0'] is not None and inst(v['ref0']))
+        elif shape == 'counts-m2m': exp = sorted((hid, sum(1 for pk in v['refs0'] if inst(pk))) for hid, v in hold.items())
+        elif shape == 'counts-o2m': exp = sorted((hid, sum(1 for pk in v['many'] if inst(pk))) for hid, v in hold.items())
+        elif shape == 'holders-any-m2m': exp = sorted(hid for hid, v in hold.items() if any(inst(pk) for pk in v['refs0']))
+        elif shape == 'sizes': exp = sorted((hid, len(v['refs0']), len(v['many'])) for hid, v in hold.items())
+        else: exp = sorted((hid, sum(w.a[(0, pk)] for pk in v['refs0']), max([w.a[(0, pk)] for pk in v['many']] or [None])) for hid, v in hold.items())
+        det = [form, src, self.name(s), 'string' if as_string else 'generator']
+        self.ctx.count('navigated-form:' + form)
+        key = 'isinstance-navigated-object' if form in ('m2m-iterate', 'to-one-key-left', 'm2m-count', 'm2m-exists') else None
+        try:
+            q = select(src, env) if as_string else eval('select(%s)' % src, env)
+            rows = q[:]
+        except Exception as e:
+            self.ctx.case(['navigated', h['bases'], h['mode']] + det, kind='oracle:set:navigated')
+            self.fail('navigated', 'isinstance / aggregate on an object reached by navigation raised %s: %s' % (type(e).__name__, str(e)[:80]), det, 'raised ' + type(e).__name__, exp, key=key)
+            if key is None: self.broken = True
+            return False
+        if shape.startswith('objects'): return self.check_set('navigated', rows, 0, exp, det, key=key)
+        got = sorted((o.id if hasattr(o, 'id') else tuple(o)) for o in rows) if shape.startswith('holders') else sorted(tuple(r) for r in rows)
+        self.ctx.case(['navigated', h['bases'], h['mode']] + det, kind='oracle:set:navigated')
+        if got != exp:
+            if shape in ('holders-mref', 'holders-ref0'):
+                # isinstance(None, cls) is False in Python; the translation of `isinstance(h.ref, <static type of ref>)` is the constant TRUE
+                attr = 'mref' if shape == 'holders-mref' else 'ref0'
+                none_holders = {hid for hid, v in hold.items() if v[attr] is None}
+                if set(exp) <= set(got) and set(got) - set(exp) <= none_holders: key = 'isinstance-none-reference'
+            self.fail('navigated', 'isinstance / aggregate on objects reached by navigation differs from the stored classes', det, got, exp, key=key)
             return False
         return True
 
@@ -473,6 +528,24 @@ class Checker:
                 objs = select('x for hh in H for x in hh.many', {'H': H})[:]
                 exp = sorted({pk for v in w.holders.values() for pk in v['many']})
             self.check_set(kind, objs, 0, exp, [])
+        elif kind == 'query-tuple-ref':
+            # a query returning tuples: the entity-typed column is built from primary keys only and must be loaded (Query._actual_fetch)
+            rows = select('(hh.id, hh.mref) for hh in H if hh.mref is not None', {'H': H})[:]
+            exp = sorted((hid, v['mref']) for hid, v in w.holders.items() if v['mref'] is not None)
+            if sorted((hid, o.id) for hid, o in rows) != exp:
+                self.fail(kind, 'tuple query returns other (holder, reference) pairs', [], sorted((hid, o.id) for hid, o in rows), exp)
+            else:
+                for hid, o in rows: self.check_type(kind, o, 0, [hid])
+        elif kind == 'seed-then-index':
+            # every holder loaded: the many-to-one targets are seeds typed with the root; then E[pk] finds the seed in the identity map
+            hs = select('hh for hh in H', {'H': H})[:]
+            cands = [v['mref'] for v in w.holders.values() if v['mref'] is not None]
+            if not cands: return
+            pk = rng.choice(cands); r = w.cls[(0, pk)]
+            c = rng.choice([x for x in range(n) if is_sub(h, r, x)])
+            o = E[c][pk] if rng.random() < 0.5 else E[c].get(id=pk)
+            if o is None: self.fail(kind, 'E.get(id=pk) returns None for a stored object of a subclass', [self.name(c), pk], None, self.name(r))
+            else: self.check_type(kind, o, 0, [self.name(c), pk])
         elif kind == 'nested-subquery':
             s_ = rng.randrange(n)
             tree = [c for c in range(n) if h['root'][c] == h['root'][s_]]
@@ -484,6 +557,21 @@ class Checker:
             return self.isinstance_query(c, classes, rng.random() < 0.25, rng.choice(['string', 'generator', 'lambda']), rng.random() < 0.6)
         else:
             raise ValueError(kind)
+
+
+# isinstance / aggregates on objects reached by NAVIGATION from the holders (the discriminator column lives in the entity's own table, which a
+# pk-only join does not bring in); `shape`: what the query returns
+NAVIGATED_FORMS = {
+    'm2m-iterate':      ('x for hh in H for x in hh.refs0 if isinstance(x, S)', 'objects-m2m'),
+    'o2m-iterate':      ('x for hh in H for x in hh.many if isinstance(x, S)', 'objects-o2m'),
+    'to-one-key-left':  ('hh for hh in H if isinstance(hh.mref, S)', 'holders-mref'),
+    'to-one-key-right': ('hh for hh in H if isinstance(hh.ref0, S)', 'holders-ref0'),
+    'm2m-count':        ('(hh.id, count(x for x in hh.refs0 if isinstance(x, S))) for hh in H', 'counts-m2m'),
+    'o2m-count':        ('(hh.id, count(x for x in hh.many if isinstance(x, S))) for hh in H', 'counts-o2m'),
+    'm2m-exists':       ('hh for hh in H if exists(x for x in hh.refs0 if isinstance(x, S))', 'holders-any-m2m'),
+    'collection-sizes': ('(hh.id, count(hh.refs0), count(hh.many)) for hh in H', 'sizes'),
+    'collection-aggr':  ('(hh.id, sum(hh.refs0.a), max(hh.many.a)) for hh in H', 'aggr'),
+}
 
 
 # nested sub-queries over S inside a query over R (or the holders H); by the FIRST use of the lambda's variable:
@@ -502,6 +590,18 @@ NESTED_FORMS = {
     'holder-exists-eq':   ('hh for hh in H if S.exists(lambda s: s == hh.mref)', 'holders'),                 # pk-only, through a reference
     'holder-in-select':   ('hh for hh in H if hh.mref in S.select(lambda s: True)', 'holders'),              # no use, through a reference
 }
+
+
+def navigated_sweep(ctx, h, db, E, H, w):
+    """every class of the first tree x every navigated form"""
+    ck = Checker(ctx, h, db, E, H, w); ck.trace.append('navigated-sweep')
+    k = 0
+    for s in [c for c in range(h['n']) if h['root'][c] == 0]:
+        for form in NAVIGATED_FORMS:
+            if ck.broken: return
+            k += 1
+            with db_session:          # a failed statement must not poison the next ones
+                ck.navigated_query(s, form, as_string=(k % 3 == 0))
 
 
 def nested_sweep(ctx, h, db, E, H, w):
@@ -532,7 +632,7 @@ def isinstance_py(h, r, classes):
 
 STEPS = ['index', 'index', 'get-pk', 'get-attr', 'by-sql', 'get-by-sql', 'index-miss', 'select', 'select', 'select-filter', 'select-all-method',
          'ref', 'holder-first-ref', 'sub-ref', 'mref', 'mref', 'holder-first-mref', 'm2m-items', 'm2m-items-then-touch', 'o2m-items', 'query-ref', 'query-m2m', 'query-o2m',
-         'isinstance', 'isinstance', 'isinstance', 'nested-subquery', 'nested-subquery']
+         'isinstance', 'isinstance', 'isinstance', 'nested-subquery', 'nested-subquery', 'query-tuple-ref', 'query-tuple-ref', 'seed-then-index', 'seed-then-index']
 
 
 def one_world(ctx, h, reqs, checks):
@@ -556,8 +656,12 @@ def one_world(ctx, h, reqs, checks):
                     if ck.broken: break
                     r = ck.step(rng, rng.choice(STEPS))
                     register_isinstance(h, code, cmap, r, reqs, checks)
+            for site, has_sub, still, det in ck.seed_obs:
+                reqs.append({'op': 'handout', 'site': site, 'hasSub': has_sub, 'isSeed': True})
+                checks.append(('handout', [site, has_sub] + det, still))
         isinstance_sweep(ctx, h, db, E, H, w, code, cmap, reqs, checks)
         nested_sweep(ctx, h, db, E, H, w)
+        navigated_sweep(ctx, h, db, E, H, w)
         refine_tie(ctx, h, db, E, code, w, reqs, checks)
     finally:
         db.disconnect()
@@ -608,10 +712,24 @@ def witnesses(ctx):
         o = E[1](a=1); hh = H(refs0=[o]); flush(); pk, hid = o.id, hh.id
     w = World(); w.cls[(0, pk)] = 1; w.a[(0, pk)] = 1; w.holders[hid] = {'ref0': None, 'refs0': [pk], 'many': [], 'mref': None, 'sub': None}
     ck = Checker(ctx, h, db, E, H, w); ck.trace.append('m2m-items')
+    try:
+        with db_session:
+            items = list(H[hid].refs0)
+            ok = ck.check_set('m2m-items', items, 0, [pk], [hid, 'refs0'], key='m2m-items-not-refined')
+            state['m2m-items-not-refined'] = 'holds' if ok else 'reproduced: %r' % ([type(o).__name__ for o in items],)
+    except Exception as e:
+        ck.fail('m2m-items', 'iterating a many-to-many collection of subclass objects raised %s' % type(e).__name__, str(e)[:200], 'raised ' + type(e).__name__, 'the stored objects')
+        state['m2m-items-not-refined'] = 'raised ' + type(e).__name__
+    # 3. isinstance on an object reached by navigation (many-to-many item, to-one attribute with the key in the holder's table)
+    for form, key in (('m2m-iterate', 'isinstance-navigated-object'), ('to-one-key-left', 'isinstance-navigated-object')):
+        with db_session:
+            ok = Checker(ctx, h, db, E, H, w).navigated_query(1, form, False)
+        state['%s/%s' % (key, form)] = 'holds' if ok else 'reproduced'
+    # 4. isinstance(h.ref, <declared type>) for a reference that is None
+    with db_session: hh2 = H(); flush(); w.holders[hh2.id] = {'ref0': None, 'refs0': [], 'many': [], 'mref': None, 'sub': None}
     with db_session:
-        items = list(H[hid].refs0)
-        ok = ck.check_set('m2m-items', items, 0, [pk], [hid, 'refs0'], key='m2m-items-not-refined')
-        state['m2m-items-not-refined'] = 'holds' if ok else 'reproduced: %r' % ([type(o).__name__ for o in items],)
+        ok = Checker(ctx, h, db, E, H, w).navigated_query(0, 'to-one-key-right', False)
+    state['isinstance-none-reference'] = 'holds' if ok else 'reproduced'
     db.disconnect()
     # 2. two classes with the same _discriminator_ value are accepted; objects of the first are read back as the second
     db = Database()
@@ -659,6 +777,11 @@ def run(ctx):
         if 'driver_error' in out:
             ctx.divergence('driver error', inp if kind != 'hier' else inp['bases'], model=out, impl=None); continue
         if kind == 'hier': compare_hier(ctx, inp, real, out)
+        elif kind == 'handout':
+            ctx.case(['handout'] + inp[:2], nontrivial=False, kind='tie:handout:' + inp[0])
+            # the model's worst case (the object WAS a seed when the site was entered): may it still be one when handed out?
+            if real and not out['stillSeed']:
+                ctx.divergence('an object is handed out as a seed (primary key only) where the model (guards regenerated from core.py) says it is loaded first', inp, model=out, impl={'stillSeed': real})
         elif kind == 'joins':
             ctx.case(['joins'] + inp, kind='tie:joins:%s:%s' % (inp[0], 'pk-first' if inp[2][0] else 'full-first'))
             if out != real: ctx.divergence('make_join / discriminator criteria: model (guards regenerated from the source) and the real method disagree', inp, model=out, impl=real)
